@@ -104,6 +104,30 @@ def expand(task):
   return statespace.expand_paths(system(task['cfg']), task['paths'])
 
 
+def large_shard(task):
+  """Hand-out on a study whose trial ids have one and two (and three) digits, against the reference model on RAM and SQLite in
+  lock-step: a worker that holds more trials than it asks for, across the 9 / 10 (and 99 / 100) boundary."""
+  cfg = {'backends': ['ram', 'sqlmem'], 'max_trials': 400, 'max_ops': 12, 'counts': (1, 2, 3), 'max_id': 125}
+  sysm = system(cfg)
+  sysm.reset()
+  path = [('CreateStudy', 's')] + [('CreateTrial', 's', 'succeeded', round(0.01 * i, 6)) for i in range(1, 8)]
+  path += [('SuggestTrials', 's', 'a', 2), ('SuggestTrials', 's', 'a', 3), ('SuggestTrials', 's', 'a', 2), ('SuggestTrials', 's', 'a', 1), ('ListTrials', 's'),
+           ('SuggestTrials', 's', 'b', 2), ('CompleteTrial', 's', 9, 'final'), ('SuggestTrials', 's', 'a', 2), ('SuggestTrials', 's', 'b', 1)]
+  path += [('CreateTrial', 's', 'succeeded', round(0.001 * i, 6)) for i in range(1, 88)]
+  path += [('SuggestTrials', 's', 'c', 3), ('SuggestTrials', 's', 'c', 2), ('SuggestTrials', 's', 'c', 1), ('CreateTrial', 's', 'requested', 0.5), ('SuggestTrials', 's', 'c', 3), ('ListTrials', 's')]
+  vios, done = [], 0
+  for a in path:
+    for v in sysm.apply(a):
+      v = dict(v)
+      v['sig'] += '|large-study'
+      v['case'] = {'large': True}
+      vios.append(v)
+    done += 1
+    if vios:
+      break
+  return {'n': done, 'violations': vios[:5]}
+
+
 def run(ctx):
   if ctx.quick:
     plans = [({'backends': ['ram'], 'max_trials': 4, 'max_ops': 3, 'counts': (1, 2, 3), 'max_id': 7}, 4),
@@ -140,10 +164,17 @@ def run(ctx):
     cov['exhaustive'] = cov['exhaustive'] and c['exhaustive']
     c['cfg'] = cfg
     cov['runs'].append(c)
+  for r in ctx.pmap('large_shard', [{}]):
+    cov['transitions'] += r['n']
+    cov['traces_validated_against_impl'] += r['n']
+    cov['large_study_steps'] = r['n']
+    ctx.extend(r['violations'])
   return cov
 
 
 def replay(case, ctx):
+  if case.get('large'):
+    return large_shard({})['violations']
   sysm = system(case['cfg'])
   sysm.reset()
   for a in case['path']:
